@@ -7,3 +7,6 @@ git apply "$patch" || { echo "patch does not apply"; exit 2; }
 /verif/tools/run_all.sh quick "$seed" 2>&1 | sed 's/KNOWN-FINDING.*//' | grep -v "^$" | grep -v "violations=0" | cut -c1-600
 echo "--- done $(basename $(dirname $patch))"
 git checkout -- . ; git clean -fdq
+# evidence and replay files written while the change was applied are not evidence of anything
+git -C /verif checkout -- evidence 2>/dev/null; rm -rf /verif/replays
+
